@@ -45,9 +45,14 @@ type Plan struct {
 	NullPM, ErrPM, DirPM int
 	PanicPM              int // background rate of panicking resolvers (used by the websocket scenario)
 	TagPanicPM           int // background rate of Tag values whose eager marshal function panics
-	MaxList              int
-	Faults               map[string]Kind    // resolver path -> KError | KPanic | KNull
-	DirFaults            map[string]DirKind // field path -> directive behaviour
+	// IcptFaults: the field interceptor (AroundFields) fails at this resolver-backed position
+	// before it calls next (KError or KPanic); RootIcptPanics: the root-field interceptor
+	// (AroundRootFields) panics at this root response key before it calls next
+	IcptFaults     map[string]Kind
+	RootIcptPanics map[string]bool
+	MaxList        int
+	Faults         map[string]Kind    // resolver path -> KError | KPanic | KNull
+	DirFaults      map[string]DirKind // field path -> directive behaviour
 	// IgnoreCancel: resolvers do not look at ctx (C05 premise variants)
 }
 
